@@ -2242,4 +2242,12 @@ M("e14-quiet-params-scope-before-consts", "C14", "quiet", "src/compile.rs",
         }
         let output_gates = compile_block(&fn_def.body, self, &mut env, &mut circuit);
         env.pop();""", "behaviour-preserving: parameters bound in reverse order (distinct names)")
+REVERT("revert-retype-operands", "C05", "fire S13", "b8206f8", "pre-fix tree: unify / index / shift amount / match arms re-type only the top node of an untyped expression")
+REVERT("revert-retype-operands-c03", "C03", "fire A9", "b8206f8", "pre-fix tree: `a == (255 + 1)` computed at 32 bits")
+M("s13-shift-amount-one-node", "C05", "fire S13", "src/check.rs",
+  """                    check_type(&mut y, &Type::Unsigned(UnsignedNumType::U8))?;""",
+  """                    check_or_constrain_unsigned(&mut y, UnsignedNumType::U8)?;""", "shift amount re-typed at its top node only")
+M("t3-shift-amount-constrain-only", "C17", "fire T3", "src/check.rs",
+  """                    check_type(&mut y, &Type::Unsigned(UnsignedNumType::U8))?;""",
+  """                    constrain_type(&mut y, &Type::Unsigned(UnsignedNumType::U8))?;""", "shift amount only constrained, never compared: `a << (x == y)` is accepted")
 
